@@ -4,8 +4,8 @@
      - plain names (.name / :name): non-empty, valid UTF-8, no delimiter byte of raw_string, no backslash;
      - quoted names (["name"]) and string literals: valid UTF-8, no double quote, no backslash;
      - indices and `last` offsets: any i32;
-     - integer literals as the parser types them: u64 as NUInt, negative i64 as NInt; floats under a per-float test;
-     - the nesting depth below the printer model's fuel (200).
+     - integer literals as the parser types them: u64 as NUInt, negative i64 as NInt; floats under a per-float test.
+   No bound on the length or the nesting depth: the predicates recurse on the structure of the AST, as the printer does.
    Definitions only (no proofs): PathRoundtrip.v has the theorem. *)
 From Coq Require Import List NArith ZArith Bool.
 Import ListNotations.
@@ -62,24 +62,22 @@ Section Safe.
   (* a unary sign is covered in front of a path operand only: in front of a literal the text may lex as a signed number *)
   Definition is_paths (e : expr) : bool := match e with EPaths _ => true | _ => false end.
 
-  (* fuel mirrors the fuel of show_path / show_expr, so that safe implies "printed in full" *)
-  Fixpoint safe_step (fuel : nat) (p : path) : bool :=
-    match fuel with O => false | S f =>
+  Definition safe_step_with (se : expr -> bool) (p : path) : bool :=
     match p with
-    | PFilter e => safe_expr f false e
+    | PFilter e => se e
     | _ => safe_inner p
-    end end
-  with safe_expr (fuel : nat) (rp : bool) (e : expr) : bool :=
-    match fuel with O => false | S f =>
+    end.
+  Fixpoint safe_expr (rp : bool) (e : expr) {struct e} : bool :=
     match e with
     | EBin op l r =>
-        if is_cmp op then (2 <=? f)%nat && safe_operand rp l && safe_operand rp r
-        else safe_expr f rp l && safe_expr f rp r
-    | EArithB _ l r => (2 <=? f)%nat && safe_operand rp l && safe_operand rp r
-    | EArithU _ x => (2 <=? f)%nat && is_paths x && safe_operand rp x
-    | EExists (PRoot :: l) | EExists (PCurrent :: l) => (1 <=? f)%nat && forallb (safe_step f) l
+        if is_cmp op then safe_operand rp l && safe_operand rp r
+        else safe_expr rp l && safe_expr rp r
+    | EArithB _ l r => safe_operand rp l && safe_operand rp r
+    | EArithU _ x => is_paths x && safe_operand rp x
+    | EExists (PRoot :: l) | EExists (PCurrent :: l) => forallb (safe_step_with (fun e' => safe_expr false e')) l
     | _ => false
-    end end.
+    end.
+  Definition safe_step (p : path) : bool := safe_step_with (safe_expr false) p.
 
   (* an un-rooted path starts with a step; if that is a .name, the name must not start with a digit
      (".5e" is read as a malformed float: PathRoundtrip.unrooted_digit_name_refuted) *)
@@ -88,13 +86,13 @@ Section Safe.
 
   Definition safe_path (ps : list path) : bool :=
     match ps with
-    | [PPredicate e] => safe_expr 199 true e
-    | PRoot :: l => forallb (safe_step 200) l
-    | l => forallb (safe_step 200) l && first_ok l
+    | [PPredicate e] => safe_expr true e
+    | PRoot :: l => forallb safe_step l
+    | l => forallb safe_step l && first_ok l
     end.
 
   (* ---- the same conditions without the shape: "nothing needs quoting or escaping, literals typed as the parser types
-     them, depth below the printer model's fuel". PathImage.leaf_shape_safe: on a path of the parser's shape (every
+     them". PathImage.leaf_shape_safe: on a path of the parser's shape (every
      accepted path has it: PathImage.parse_image) leaf_path is the same as safe_path. *)
   Definition leaf_inner (p : path) : bool :=
     match p with
@@ -105,23 +103,22 @@ Section Safe.
     end.
   Definition leaf_operand (e : expr) : bool :=
     match e with EPaths l => forallb leaf_inner l | EValue v => safe_value v | _ => true end.
-  Fixpoint leaf_step (fuel : nat) (p : path) : bool :=
-    match fuel with O => false | S f =>
-    match p with PFilter e => leaf_expr f e | _ => leaf_inner p end end
-  with leaf_expr (fuel : nat) (e : expr) : bool :=
-    match fuel with O => false | S f =>
+  Definition leaf_step_with (le : expr -> bool) (p : path) : bool :=
+    match p with PFilter e => le e | _ => leaf_inner p end.
+  Fixpoint leaf_expr (e : expr) {struct e} : bool :=
     match e with
-    | EBin op l r => if is_cmp op then (2 <=? f)%nat && leaf_operand l && leaf_operand r else leaf_expr f l && leaf_expr f r
-    | EArithB _ l r => (2 <=? f)%nat && leaf_operand l && leaf_operand r
-    | EArithU _ x => (2 <=? f)%nat && is_paths x && leaf_operand x
-    | EExists l => (1 <=? f)%nat && forallb (leaf_step f) l
+    | EBin op l r => if is_cmp op then leaf_operand l && leaf_operand r else leaf_expr l && leaf_expr r
+    | EArithB _ l r => leaf_operand l && leaf_operand r
+    | EArithU _ x => is_paths x && leaf_operand x
+    | EExists l => forallb (leaf_step_with (fun e' => leaf_expr e')) l
     | _ => true
-    end end.
+    end.
+  Definition leaf_step (p : path) : bool := leaf_step_with leaf_expr p.
   Definition leaf_path (ps : list path) : bool :=
     match ps with
-    | [PPredicate e] => leaf_expr 199 e
-    | PRoot :: l => forallb (leaf_step 200) l
-    | l => forallb (leaf_step 200) l && first_ok l
+    | [PPredicate e] => leaf_expr e
+    | PRoot :: l => forallb leaf_step l
+    | l => forallb leaf_step l && first_ok l
     end.
 End Safe.
 
